@@ -4,7 +4,7 @@
 # (the library was repaired in the meantime at that spot) are reported as such.
 # usage: tools/reeval_seeded.sh [ids...]      (default: every directory under seeded/)
 cd "$(dirname "$0")/.."; V=$(pwd)
-ids="$@"; [ -z "$ids" ] && ids=$(ls seeded | grep -v INDEX)
+ids="$@"; [ -z "$ids" ] && ids=$(ls seeded | grep -v "INDEX\|^_")
 for id in $ids; do
   prop=$(python3 -c "import json;print(json.load(open('seeded/$id/meta.json'))['property'])")
   S=/dev/shm/mutre/$id; rm -rf $S; mkdir -p $S
